@@ -342,7 +342,7 @@ func (vc *VC) renderSliced(o *Obligation, logic string) string {
 	if logic != "" {
 		b.WriteString("(set-logic " + logic + ")\n")
 	}
-	for _, d := range vc.sortDecls {
+	for _, d := range vc.orderedSortDecls() {
 		b.WriteString(d + "\n")
 	}
 	for i, d := range vc.decls {
